@@ -35,8 +35,8 @@ MUTANTS: List[Dict[str, Any]] = [
     },
     {
         "id": "candidate-window-one-too-far",
-        "what": "candidate upper bound peeks one lot past the disposal",
-        "checks": ["C02", "C09"],
+        "what": "candidate upper bound peeks one lot past the disposal (GainLoss's own constructor check then rejects valid histories)",
+        "checks": ["C02"],
         "edits": [{"file": AE, "old": "lot_candidates.set_to_index(acquired_lot_and_index.index)", "new": "lot_candidates.set_to_index(min(acquired_lot_and_index.index + 1, len(self._AccountingEngine__acquired_lot_list) - 1))"}],
     },
     {
